@@ -387,4 +387,8 @@ theorem restore_order_as_modelled :
       ("perform_super", ["run", "restore", "restore2", "result"]),
       ("perform_include", ["loop", "take", "run", "restore", "restore2", "result"])] := by decide
 
+/-- no hook site of C05 keeps the real call in a `cfg(not(feature = "verif_hooks"))` branch: the
+line the users' build runs is the line the checks run -/
+theorem hook_sites_call_once : MJ.Gen.c05HookNotBranches = [] := by decide
+
 end MJ.C05
